@@ -1,0 +1,381 @@
+//go:build verif
+
+package ast
+
+// Contracts for package ast, read by /verif/govc (comment-only file, build tag verif).
+// The parser part is produced by /verif/tools/gen_parser_contracts.py.
+
+// ---- recursive-descent parser (parser.go): total, in-bounds, progress, no holes ----
+// tokWf: the token slice produced by the lexer: non-nil tokens, exactly one EOF, at the end.
+//@ pred tokWf(tokens []*Token) := len(tokens) >= 1 && (forall k :: { tokens[k] } 0 <= k && k < len(tokens) ==> tokens[k] != nil)
+//@    && (forall k :: { tokens[k] } 0 <= k && k < len(tokens) ==> ((tokens[k].TokenType == EOF) == (k == len(tokens) - 1)))
+//@ pred ign(t Int) := t == WS || t == COMMENT
+//@ pred okIdx(tokens []*Token, i Int, r Int) := i < r && r < len(tokens)
+
+//@ func consumeIgnoreableTokens [C08 C15]
+//@   noframe
+//@   requires tokWf(tokens) && 0 <= index && index < len(tokens)
+//@   ensures range: index <= result && result < len(tokens)
+//@   ensures significant: !ign(tokens[result].TokenType)
+//@   ensures skipped: forall k :: { tokens[k] } index <= k && k < result ==> ign(tokens[k].TokenType)
+//@   loop 1 invariant index <= current_index && current_index < len(tokens)
+//@   loop 1 invariant forall k :: { tokens[k] } index <= k && k < current_index ==> ign(tokens[k].TokenType)
+//@   loop 1 decreases len(tokens) - current_index
+
+//@ func parse_command [C08]
+//@   noframe
+//@   requires tokWf(tokens) && 0 <= token_index && token_index < len(tokens)
+//@   ensures nohole: result.2 == nil && tokens[token_index].TokenType != EOF ==> wfbox(result.0)
+//@   ensures index: result.2 == nil && tokens[token_index].TokenType != EOF ==> okIdx(tokens, token_index, result.1)
+//@   ensures eof: tokens[token_index].TokenType == EOF ==> result.1 == token_index && result.0 == nil
+//@   ensures either: result.2 != nil || result.1 < len(tokens)
+
+//@ func parse_find [C08]
+//@   noframe
+//@   requires tokWf(tokens) && 0 <= token_index && token_index < len(tokens) && tokens[token_index].TokenType != EOF
+//@   ensures nohole: result.2 == nil ==> result.0 != nil
+//@   ensures index: result.2 == nil ==> okIdx(tokens, token_index, result.1)
+//@   ensures either: result.2 != nil || result.1 < len(tokens)
+//@   loop 1 invariant 0 <= current_index && current_index < len(tokens) && current_token == tokens[current_index] && token_index < current_index
+
+//@ func parse_replace [C08]
+//@   noframe
+//@   requires tokWf(tokens) && 0 <= token_index && token_index < len(tokens) && tokens[token_index].TokenType != EOF
+//@   ensures nohole: result.2 == nil ==> result.0 != nil
+//@   ensures index: result.2 == nil ==> okIdx(tokens, token_index, result.1)
+//@   ensures either: result.2 != nil || result.1 < len(tokens)
+//@   loop 1 invariant 0 <= current_index && current_index < len(tokens) && current_token == tokens[current_index] && token_index < current_index
+//@   loop 2 invariant 0 <= current_index && current_index < len(tokens) && token_index < current_index && current_token != nil
+
+//@ func parse_set [C08]
+//@   noframe
+//@   requires tokWf(tokens) && 0 <= token_index && token_index < len(tokens) && tokens[token_index].TokenType != EOF
+//@   ensures nohole: result.2 == nil ==> result.0 != nil
+//@   ensures index: result.2 == nil ==> okIdx(tokens, token_index, result.1)
+//@   ensures either: result.2 != nil || result.1 < len(tokens)
+
+//@ func parse_set_transform [C08]
+//@   noframe
+//@   requires tokWf(tokens) && 0 <= token_index && token_index < len(tokens) && tokens[token_index].TokenType != EOF
+//@   ensures nohole: result.2 == nil ==> wfbox(result.0)
+//@   ensures index: result.2 == nil ==> okIdx(tokens, token_index, result.1)
+//@   ensures either: result.2 != nil || result.1 < len(tokens)
+
+//@ func parse_set_pattern [C08]
+//@   noframe
+//@   requires tokWf(tokens) && 0 <= token_index && token_index < len(tokens) && tokens[token_index].TokenType != EOF
+//@   ensures nohole: result.2 == nil ==> wfbox(result.0)
+//@   ensures index: result.2 == nil ==> okIdx(tokens, token_index, result.1)
+//@   ensures either: result.2 != nil || result.1 < len(tokens)
+//@   loop 1 invariant 0 <= current_index && current_index < len(tokens) && token_index < current_index
+
+//@ func parse_set_matches [C08]
+//@   noframe
+//@   requires tokWf(tokens) && 0 <= token_index && token_index < len(tokens) && tokens[token_index].TokenType != EOF
+//@   ensures nohole: result.2 == nil ==> wfbox(result.0)
+//@   ensures index: result.2 == nil ==> okIdx(tokens, token_index, result.1)
+//@   ensures either: result.2 != nil || result.1 < len(tokens)
+
+//@ func parse_expression [C08]
+//@   noframe
+//@   requires tokWf(tokens) && 0 <= token_index && token_index < len(tokens)
+//@   ensures nohole: result.2 == nil ==> wfbox(result.0)
+//@   ensures index: result.2 == nil ==> okIdx(tokens, token_index, result.1)
+//@   ensures either: result.2 != nil || result.1 < len(tokens)
+
+//@ func parse_at [C08]
+//@   noframe
+//@   requires tokWf(tokens) && 0 <= token_index && token_index < len(tokens) && tokens[token_index].TokenType != EOF
+//@   ensures nohole: result.2 == nil ==> result.0 != nil
+//@   ensures index: result.2 == nil ==> okIdx(tokens, token_index, result.1)
+//@   ensures either: result.2 != nil || result.1 < len(tokens)
+
+//@ func parse_between [C08]
+//@   noframe
+//@   requires tokWf(tokens) && 0 <= token_index && token_index < len(tokens) && tokens[token_index].TokenType != EOF
+//@   ensures nohole: result.2 == nil ==> result.0 != nil
+//@   ensures index: result.2 == nil ==> okIdx(tokens, token_index, result.1)
+//@   ensures either: result.2 != nil || result.1 < len(tokens)
+
+//@ func parse_exactly [C08]
+//@   noframe
+//@   requires tokWf(tokens) && 0 <= token_index && token_index < len(tokens) && tokens[token_index].TokenType != EOF
+//@   ensures nohole: result.2 == nil ==> result.0 != nil
+//@   ensures index: result.2 == nil ==> okIdx(tokens, token_index, result.1)
+//@   ensures either: result.2 != nil || result.1 < len(tokens)
+
+//@ func parse_maybe [C08]
+//@   noframe
+//@   requires tokWf(tokens) && 0 <= token_index && token_index < len(tokens) && tokens[token_index].TokenType != EOF
+//@   ensures nohole: result.2 == nil ==> result.0 != nil
+//@   ensures index: result.2 == nil ==> okIdx(tokens, token_index, result.1)
+//@   ensures either: result.2 != nil || result.1 < len(tokens)
+
+//@ func parse_not_expression [C08]
+//@   noframe
+//@   requires tokWf(tokens) && 0 <= token_index && token_index < len(tokens) && tokens[token_index].TokenType != EOF
+//@   ensures nohole: result.2 == nil ==> wfbox(result.0)
+//@   ensures index: result.2 == nil ==> okIdx(tokens, token_index, result.1)
+//@   ensures either: result.2 != nil || result.1 < len(tokens)
+
+//@ func parse_not_literal [C08]
+//@   noframe
+//@   requires tokWf(tokens) && 0 <= token_index && token_index < len(tokens) && tokens[token_index].TokenType != EOF
+//@   ensures nohole: result.2 == nil ==> wfbox(result.0)
+//@   ensures index: result.2 == nil ==> okIdx(tokens, token_index, result.1)
+//@   ensures either: result.2 != nil || result.1 < len(tokens)
+
+//@ func parse_in [C08]
+//@   noframe
+//@   requires tokWf(tokens) && 0 <= token_index && token_index < len(tokens) && tokens[token_index].TokenType != EOF
+//@   ensures nohole: result.2 == nil ==> result.0 != nil
+//@   ensures index: result.2 == nil ==> okIdx(tokens, token_index, result.1)
+//@   ensures either: result.2 != nil || result.1 < len(tokens)
+//@   loop 1 invariant 0 <= current_index && current_index < len(tokens) && current_token == tokens[current_index] && token_index < current_index
+
+//@ func parse_listable [C08]
+//@   noframe
+//@   requires tokWf(tokens) && 0 <= token_index && token_index < len(tokens)
+//@   ensures nohole: result.2 == nil ==> wfbox(result.0)
+//@   ensures index: result.2 == nil ==> okIdx(tokens, token_index, result.1)
+//@   ensures either: result.2 != nil || result.1 < len(tokens)
+
+//@ func parse_literal [C08]
+//@   noframe
+//@   requires tokWf(tokens) && 0 <= token_index && token_index < len(tokens)
+//@   ensures nohole: result.2 == nil ==> wfbox(result.0)
+//@   ensures index: result.2 == nil ==> okIdx(tokens, token_index, result.1)
+//@   ensures either: result.2 != nil || result.1 < len(tokens)
+
+//@ func parse_primary_or_dec [C08]
+//@   noframe
+//@   requires tokWf(tokens) && 0 <= token_index && token_index < len(tokens)
+//@   ensures nohole: result.2 == nil ==> wfbox(result.0)
+//@   ensures index: result.2 == nil ==> okIdx(tokens, token_index, result.1)
+//@   ensures either: result.2 != nil || result.1 < len(tokens)
+
+//@ func parse_primary_or_or [C08]
+//@   noframe
+//@   requires tokWf(tokens) && 0 <= token_index && token_index < len(tokens)
+//@   ensures nohole: result.2 == nil ==> wfbox(result.0)
+//@   ensures index: result.2 == nil ==> okIdx(tokens, token_index, result.1)
+//@   ensures either: result.2 != nil || result.1 < len(tokens)
+
+//@ func parse_atom [C08]
+//@   noframe
+//@   requires tokWf(tokens) && 0 <= token_index && token_index < len(tokens)
+//@   ensures nohole: result.2 == nil ==> wfbox(result.0)
+//@   ensures index: result.2 == nil ==> okIdx(tokens, token_index, result.1)
+//@   ensures either: result.2 != nil || result.1 < len(tokens)
+
+//@ func parse_caseless [C08]
+//@   noframe
+//@   requires tokWf(tokens) && 0 <= token_index && token_index < len(tokens) && tokens[token_index].TokenType != EOF
+//@   ensures nohole: result.2 == nil ==> result.0 != nil
+//@   ensures index: result.2 == nil ==> okIdx(tokens, token_index, result.1)
+//@   ensures either: result.2 != nil || result.1 < len(tokens)
+
+//@ func parse_string [C08]
+//@   noframe
+//@   requires tokWf(tokens) && 0 <= token_index && token_index < len(tokens)
+//@   ensures nohole: result.2 == nil ==> result.0 != nil
+//@   ensures index: result.2 == nil ==> okIdx(tokens, token_index, result.1)
+//@   ensures either: result.2 != nil || result.1 < len(tokens)
+
+//@ func parse_variable [C08]
+//@   noframe
+//@   requires tokWf(tokens) && 0 <= token_index && token_index < len(tokens)
+//@   ensures nohole: result.2 == nil ==> result.0 != nil
+//@   ensures index: result.2 == nil ==> okIdx(tokens, token_index, result.1)
+//@   ensures either: result.2 != nil || result.1 < len(tokens)
+
+//@ func parse_sub_expression [C08]
+//@   noframe
+//@   requires tokWf(tokens) && 0 <= token_index && token_index < len(tokens) && tokens[token_index].TokenType != EOF
+//@   ensures nohole: result.2 == nil ==> result.0 != nil
+//@   ensures index: result.2 == nil ==> okIdx(tokens, token_index, result.1)
+//@   ensures either: result.2 != nil || result.1 < len(tokens)
+//@   loop 1 invariant 0 <= current_index && current_index < len(tokens) && current_token == tokens[current_index] && token_index < current_index
+
+//@ func parse_subroutine [C08]
+//@   noframe
+//@   requires tokWf(tokens) && 0 <= token_index && token_index < len(tokens) && tokens[token_index].TokenType != EOF
+//@   ensures nohole: result.2 == nil ==> result.0 != nil
+//@   ensures index: result.2 == nil ==> okIdx(tokens, token_index, result.1)
+//@   ensures either: result.2 != nil || result.1 < len(tokens)
+//@   loop 1 invariant 0 <= current_index && current_index < len(tokens) && current_token == tokens[current_index] && token_index < current_index
+
+//@ func parse_character_class [C08]
+//@   noframe
+//@   requires tokWf(tokens) && 0 <= token_index && token_index < len(tokens)
+//@   ensures nohole: result.2 == nil ==> result.0 != nil
+//@   ensures index: result.2 == nil ==> okIdx(tokens, token_index, result.1)
+//@   ensures either: result.2 != nil || result.1 < len(tokens)
+
+//@ func parse_process_set [C08]
+//@   noframe
+//@   requires tokWf(tokens) && 0 <= index && index < len(tokens) && tokens[index].TokenType != EOF
+//@   ensures nohole: result.2 == nil ==> wfbox(result.0)
+//@   ensures index: result.2 == nil ==> okIdx(tokens, index, result.1)
+//@   ensures either: result.2 != nil || result.1 < len(tokens)
+
+//@ func parse_process_if [C08]
+//@   noframe
+//@   requires tokWf(tokens) && 0 <= index && index < len(tokens) && tokens[index].TokenType != EOF
+//@   ensures nohole: result.2 == nil ==> wfbox(result.0)
+//@   ensures index: result.2 == nil ==> okIdx(tokens, index, result.1)
+//@   ensures either: result.2 != nil || result.1 < len(tokens)
+
+//@ func parse_process_return [C08]
+//@   noframe
+//@   requires tokWf(tokens) && 0 <= index && index < len(tokens) && tokens[index].TokenType != EOF
+//@   ensures nohole: result.2 == nil ==> wfbox(result.0)
+//@   ensures index: result.2 == nil ==> okIdx(tokens, index, result.1)
+//@   ensures either: result.2 != nil || result.1 < len(tokens)
+
+//@ func parse_process_debug [C08]
+//@   noframe
+//@   requires tokWf(tokens) && 0 <= index && index < len(tokens) && tokens[index].TokenType != EOF
+//@   ensures nohole: result.2 == nil ==> wfbox(result.0)
+//@   ensures index: result.2 == nil ==> okIdx(tokens, index, result.1)
+//@   ensures either: result.2 != nil || result.1 < len(tokens)
+
+//@ func parse_process_loop [C08]
+//@   noframe
+//@   requires tokWf(tokens) && 0 <= index && index < len(tokens) && tokens[index].TokenType != EOF
+//@   ensures nohole: result.2 == nil ==> wfbox(result.0)
+//@   ensures index: result.2 == nil ==> okIdx(tokens, index, result.1)
+//@   ensures either: result.2 != nil || result.1 < len(tokens)
+
+//@ func parse_process_expression [C08]
+//@   noframe
+//@   requires tokWf(tokens) && 0 <= index && index < len(tokens)
+//@   ensures nohole: result.2 == nil ==> wfbox(result.0)
+//@   ensures index: result.2 == nil ==> okIdx(tokens, index, result.1)
+//@   ensures either: result.2 != nil || result.1 < len(tokens)
+
+//@ func parse_amount [C08 C04]
+//@   noframe
+//@   requires tokWf(tokens) && 0 <= token_index && token_index < len(tokens)
+//@   ensures index: result.5 == nil ==> token_index <= result.4 && result.4 < len(tokens) && okIdx(tokens, token_index, result.4)
+
+//@ func parse_process_statements [C08]
+//@   noframe
+//@   requires tokWf(tokens) && 0 <= index && index < len(tokens)
+//@   ensures index: result.2 == nil ==> index <= result.1 && result.1 < len(tokens)
+//@   loop 1 invariant index <= token_index && token_index < len(tokens)
+
+//@ func parse_process_statement [C08]
+//@   noframe
+//@   requires tokWf(tokens) && 0 <= index && index < len(tokens)
+//@   ensures nohole: result.2 == nil && result.0 != nil ==> wfbox(result.0) && okIdx(tokens, index, result.1)
+//@   ensures stop: result.2 == nil && result.0 == nil ==> result.1 == index && (tokens[index].TokenType == END || tokens[index].TokenType == ELSE)
+
+//@ func getProcessExpressionTokens [C08 C15]
+//@   noframe
+//@   requires tokWf(tokens) && 0 <= index && index < len(tokens)
+//@   ensures index: index <= result.1 && result.1 <= len(tokens)
+//@   ensures nonnil: forall k :: { result.0[k] } 0 <= k && k < len(result.0) ==> result.0[k] != nil
+//@   ensures nonempty: result.1 > index ==> true
+//@   loop 1 invariant index <= token_index && token_index <= len(tokens) && tokWf(tokens) && fresh(exprTokens)
+//@   loop 1 invariant forall k :: { exprTokens[k] } 0 <= k && k < len(exprTokens) ==> exprTokens[k] != nil
+//@   loop 1 decreases len(tokens) - token_index
+
+//@ func parse_expr_pratt [C08 C11]
+//@   noframe
+//@   requires (forall k :: { tokens[k] } 0 <= k && k < len(tokens) ==> tokens[k] != nil) && 0 <= index && index < len(tokens)
+//@   ensures nohole: result.2 == nil ==> wfbox(result.0)
+//@   ensures index: result.2 == nil ==> index < result.1 && result.1 <= len(tokens)
+//@   loop 1 invariant index < token_index && token_index <= len(tokens) && wfbox(lhs)
+
+//@ func parse [C08]
+//@   noframe
+//@   requires tokWf(tokens)
+//@   ensures nohole: result.1 == nil ==> forall k :: { result.0[k] } 0 <= k && k < len(result.0) ==> wfbox(result.0[k])
+//@   loop 1 invariant 0 <= token_index && token_index < len(tokens)
+//@   loop 1 invariant forall k :: { commands[k] } 0 <= k && k < len(commands) ==> wfbox(commands[k])
+//@   loop 1 decreases len(tokens) - token_index
+
+// ---- regex literal sub-parser (parser_regexp.go): total on every pattern text ----
+//@ func parse_regexp [C08 C14]
+//@   noframe
+//@   requires tokWf(tokens) && 0 <= token_index && token_index < len(tokens) && tokens[token_index].TokenType != EOF
+//@   ensures nohole: result.2 == nil ==> wfbox(result.0)
+//@   ensures index: result.2 == nil ==> okIdx(tokens, token_index, result.1)
+//@   ensures either: result.2 != nil || result.1 < len(tokens)
+//@ func parse_regexp_disjunction [C08 C14]
+//@   noframe
+//@   requires regexp_token != nil && 0 <= index && index <= len(regexp)
+//@   ensures nohole: result.2 == nil ==> forall k :: { result.0[k] } 0 <= k && k < len(result.0) ==> wfbox(result.0[k])
+//@   ensures index: result.2 == nil ==> index <= result.1 && result.1 <= len(regexp)
+//@   loop 1 invariant index <= current_index && current_index <= len(regexp)
+//@   loop 1 invariant forall k :: { results[k] } 0 <= k && k < len(results) ==> wfbox(results[k])
+//@   loop 1 decreases len(regexp) - current_index
+
+//@ func parse_regexp_pattern [C08 C14]
+//@   noframe
+//@   requires regexp_token != nil && 0 <= index && index < len(regexp)
+//@   ensures nohole: result.2 == nil ==> wfbox(result.0)
+//@   ensures index: result.2 == nil ==> index < result.1 && result.1 <= len(regexp)
+
+//@ func parse_regexp_literal [C08 C14]
+//@   noframe
+//@   requires regexp_token != nil && 0 <= index && index < len(regexp)
+//@   ensures nohole: result.2 == nil ==> wfbox(result.0)
+//@   ensures index: result.2 == nil ==> index < result.1 && result.1 <= len(regexp)
+
+//@ func parse_regexp_character_class [C08 C14]
+//@   noframe
+//@   requires regexp_token != nil && 0 <= index && index <= len(regexp)
+//@   ensures nohole: result.2 == nil ==> wfbox(result.0)
+//@   ensures index: result.2 == nil ==> index < result.1 && result.1 <= len(regexp)
+//@   loop 1 invariant index <= next_index && next_index <= len(regexp)
+//@   loop 1 invariant forall k :: { results[k] } 0 <= k && k < len(results) ==> wfbox(results[k])
+//@   loop 1 decreases len(regexp) - next_index
+
+//@ func parse_regexp_class_ranges [C08 C14]
+//@   noframe
+//@   requires regexp_token != nil && 0 <= index && index < len(regexp)
+//@   ensures nohole: result.2 == nil ==> wfbox(result.0)
+//@   ensures index: result.2 == nil ==> index < result.1 && result.1 <= len(regexp)
+
+//@ func parse_regexp_class_atom_escape [C08 C14]
+//@   noframe
+//@   requires regexp_token != nil && 0 <= index && index < len(regexp)
+//@   ensures nohole: result.2 == nil ==> wfbox(result.0)
+//@   ensures index: result.2 == nil ==> index < result.1 && result.1 <= len(regexp)
+
+//@ func parse_regexp_escape_characters [C08 C14]
+//@   noframe
+//@   requires regexp_token != nil && 0 <= index && index <= len(regexp)
+//@   ensures nohole: result.2 == nil ==> wfbox(result.0)
+//@   ensures index: result.2 == nil ==> index < result.1 && result.1 <= len(regexp)
+//@   loop 1 invariant index <= current_index && current_index < len(regexp)
+//@   loop 1 decreases len(regexp) - current_index
+
+//@ func parse_regexp_groups [C08 C14]
+//@   noframe
+//@   requires regexp_token != nil && 0 <= index && index <= len(regexp)
+//@   ensures nohole: result.2 == nil ==> wfbox(result.0)
+//@   ensures index: result.2 == nil ==> index < result.1 && result.1 <= len(regexp)
+//@   loop 1 invariant index <= current_index && current_index < len(regexp)
+//@   loop 1 decreases len(regexp) - current_index
+
+//@ func parse_regexp_class_atom_string [C08 C14]
+//@   noframe
+//@   requires regexp_token != nil && 0 <= index && index < len(regexp)
+//@   ensures some: result.2 == nil && result.0 != nil ==> result.1 == index + 1
+//@   ensures none: result.2 == nil && result.0 == nil ==> result.1 == index && sat(regexp, index) == ']'
+
+//@ func parse_regexp_number [C08 C14]
+//@   noframe
+//@   requires regexp_token != nil && 0 <= index && index <= len(regexp)
+//@   ensures index: result.2 == nil ==> index < result.1 && result.1 <= len(regexp) && result.0 >= 0
+//@   loop 1 invariant index <= idx && idx <= len(regexp)
+//@   loop 1 decreases len(regexp) - idx
+
+//@ func parse_regexp_quantifier [C08 C14]
+//@   noframe
+//@   requires regexp_token != nil && 0 <= index && index <= len(regexp)
+//@   ensures index: result.2 == nil ==> index <= result.1 && result.1 <= len(regexp)
+//@   ensures none: result.2 == nil && result.0 == nil ==> result.1 == index
